@@ -296,6 +296,14 @@ class VMapped(V):
         self.fn, self.items = fn, list(items)
 
 
+class VLinkBag(V):
+    """a local list of link dicts {'source': a, 'target': b, 'time': q} built by appends inside loops: multiset cnt(a,b,q)"""
+    kind = 'linkbag'
+
+    def __init__(self, cnt):
+        self.cnt = cnt
+
+
 class VSeq(V):
     """symbolic-length sequence: length n (z3 Int) and element access elem(i)->V; immutable value
     (appends build a new VSeq).  `sorted_` records the trusted post-condition of sorted()."""
